@@ -38,7 +38,7 @@ def propagate_fft(wavefront, pixelscale, shape=None, oversample=2,
                                   'with fitted tilt. Use propagate_dft instead.')
 
     ptype_out = _propagate_ptype(wavefront.ptype, method='fraunhofer')
-    pixelscale = np.broadcast_to(pixelscale, (2,))
+    pixelscale = np.broadcast_to(pixelscale, (2,)).astype(float)
     fft_shape, prop_wavelength = _fft_shape(wavefront.pixelscale, 
                                             pixelscale, 
                                             wavefront.focal_length, 
@@ -119,6 +119,10 @@ def scratch_shape(wavelength, dx, du, z, oversample):
 
 
 def _dft_alpha(dx, du, wavelength, z, oversample):
+    # evaluated in double precision whatever type the scalars are held in
+    dx = np.asarray(dx, dtype=float)
+    du = np.asarray(du, dtype=float)
+    wavelength, z = float(wavelength), float(z)
     return ((dx[0]*du[0])/(wavelength*z*oversample),
             (dx[1]*du[1])/(wavelength*z*oversample))
 
@@ -128,7 +132,8 @@ def _fft_shape(dx, du, z, wavelength, oversample):
     # is recomputed to account for integer padding of input plane
     alpha = _dft_alpha(dx, du, z, wavelength, oversample)
     fft_shape = np.round(np.reciprocal(alpha)).astype(int)       
-    prop_wavelength = np.min((fft_shape/oversample * dx * du)/z)
+    dx, du = np.asarray(dx, dtype=float), np.asarray(du, dtype=float)
+    prop_wavelength = np.min((fft_shape/oversample * dx * du)/float(z))
     return fft_shape, prop_wavelength
 
 
@@ -192,7 +197,7 @@ def propagate_dft(wavefront, pixelscale, shape=None, prop_shape=None,
         out_extent = lentil.extent.array_extent(shape_out, shift=(0,0))
 
     dx = wavefront.pixelscale
-    du = np.broadcast_to(pixelscale, (2,))
+    du = np.broadcast_to(pixelscale, (2,)).astype(float)
     z = wavefront.focal_length
 
     data = wavefront.data
